@@ -735,6 +735,32 @@ def soak_histories(rng, n, with_tokenize=True):
         for v in VALID_GROUPS:
             h.append(("p", v))
         hs.append(h)
+    # MANY DISTINCT inputs on one parser (a cache that is bounded or trimmed behaves differently
+    # only after hundreds of distinct keys): distinct failing inputs, then valid ones never seen
+    # before; distinct valid inputs with a clear_cache in between
+    for i in range(max(2, n // 4)):
+        h = []
+        if i % 2 == 0:
+            for j in range(rng.choice([520, 700, 1100])):
+                h.append(("p", f"{j}+") if with_tokenize or rng.random() < 0.9 else ("p", f"({j}"))
+                if with_tokenize and rng.random() < 0.05:
+                    h.append(("t", f"{j} *"))
+            for j in range(6):
+                h.append(("p", f"{j}x + {j + 1}"))
+            h.append(("p", "(x + 1) * 2"))
+        else:
+            for j in range(5):
+                h.append(("p", f"{j}y + 1"))
+                if with_tokenize:
+                    h.append(("t", f"{j}y + 1"))
+            h.append(("c",))
+            for j in range(rng.choice([1040, 1100, 1300])):
+                h.append(("p", f"{j}x + {j % 7}"))
+                if with_tokenize and rng.random() < 0.03:
+                    h.append(("t", f"{j}z"))
+            for j in range(5):
+                h.append(("p", f"{j}y + 1"))
+        hs.append(h)
     return hs
 
 
